@@ -242,7 +242,7 @@ func parseKey(kv *keyValue, pubtype string) (crypto.PublicKey, error) {
 			return nil, errors.New("xmldsig: invalid public key")
 		}
 		ebig := new(big.Int).SetBytes(ebytes)
-		if ebig.BitLen() > 30 {
+		if ebig.BitLen() > 31 {
 			return nil, errors.New("xmldsig: invalid public key")
 		}
 		e := int(ebig.Int64())
